@@ -3019,3 +3019,82 @@ func c19ProviderStateless(c *Ctx) {
 		c.Ob(rule, ssaFuncName(sf), sf.Pos(), len(written) == 0, true, "RemoteToken writes no field of its provider: %v %v", len(written) == 0, written)
 	}
 }
+
+// c12KeptImpliesWalked (KEPT-IMPLIES-WALKED, added with finding F29): the import list of a rewritten file is rebuilt
+// from what the closure walk *recorded* (closure.imports); a type is written to the output when hasType says so.
+// The image links only if every type that is kept has been walked. Two sites must agree: (A) hasType's answer for an
+// element whose inclusion mode is still unknown, and (B) which files the include-everything walk (taken when no
+// include list is given) seeds from. If (A) can answer true while (B) skips import files, an import file that stays
+// in the image keeps types nobody walked, and the imports those types need are dropped.
+func c12KeptImpliesWalked(c *Ctx, pk *packages.Package) {
+	const rule = "KEPT-IMPLIES-WALKED"
+	c.Rule(rule, "a type that was never walked is not kept (or every file is walked when everything is included)", 1)
+	p := c.P
+	info := pk.TypesInfo
+	// (A) hasType: the value returned in the unknown case
+	unknownKept, foundA := false, false
+	for _, fr := range p.FuncsOf(pk) {
+		if fr.Decl.Body == nil || fr.Decl.Name.Name != "hasType" {
+			continue
+		}
+		ast.Inspect(fr.Decl.Body, func(n ast.Node) bool {
+			cc, ok := n.(*ast.CaseClause)
+			if !ok {
+				return true
+			}
+			for _, e := range cc.List {
+				if id := lastIdent(e); id != nil && strings.Contains(id.Name, "Unknown") {
+					foundA = true
+					for _, st := range cc.Body {
+						if r, ok := st.(*ast.ReturnStmt); ok && len(r.Results) == 1 {
+							if tv, ok := info.Types[r.Results[0]]; !ok || tv.Value == nil || tv.Value.ExactString() != "false" {
+								unknownKept = true
+							}
+						}
+					}
+				}
+			}
+			return true
+		})
+	}
+	// (B) the include-everything walk skips import files
+	skipsImports, foundB := false, false
+	if fr := p.Func("private/bufpkg/bufimage/bufimageutil", "filterImage"); fr != nil {
+		ast.Inspect(fr.Decl.Body, func(n ast.Node) bool {
+			rs, ok := n.(*ast.RangeStmt)
+			if !ok || !strings.HasSuffix(exprString(rs.X), ".Files()") {
+				return true
+			}
+			seeds := false
+			ast.Inspect(rs.Body, func(m ast.Node) bool {
+				if call, ok := m.(*ast.CallExpr); ok {
+					if fn := Callee(info, call); fn != nil && fn.Name() == "addElement" {
+						seeds = true
+					}
+				}
+				return true
+			})
+			if !seeds {
+				return true
+			}
+			foundB = true
+			ast.Inspect(rs.Body, func(m ast.Node) bool {
+				if ifs, ok := m.(*ast.IfStmt); ok && strings.Contains(exprString(ifs.Cond), "IsImport()") {
+					for _, st := range ifs.Body.List {
+						if b, ok := st.(*ast.BranchStmt); ok && b.Tok == token.CONTINUE {
+							skipsImports = true
+						}
+					}
+				}
+				return true
+			})
+			return true
+		})
+	}
+	if !foundA || !foundB {
+		c.Fail(rule, "anchor", token.NoPos, "hasType's unknown case (%v) or the include-everything seeding loop of filterImage (%v) not found", foundA, foundB)
+		return
+	}
+	ok := !(unknownKept && skipsImports)
+	c.Ob(rule, "hasType/unknown-kept-while-imports-unwalked", token.NoPos, ok, true, "hasType keeps elements whose mode is unknown: %v; the include-everything walk skips import files: %v (both together keep un-walked types of surviving import files without the imports they need)", unknownKept, skipsImports)
+}
